@@ -691,6 +691,67 @@ func (t *lkTr) scanPackage(p *lkPkg, prefix string, runRoots, loadRoots []string
 				}
 			}
 		}
+		// x.f[k] = v (or append(x.f, ...)) with x a struct VALUE in the frame: the map / slice / pointer in f is shared with
+		// the struct the value was copied from. A value that is built in the frame (zero value, composite literal) is
+		// local; the copy of a field of somebody's object belongs to that object; a parameter, a value RECEIVER or a
+		// call result is a copy of a struct that lives elsewhere: the write is attributed to the struct type that
+		// holds the reference
+		viaStructValue := func(e ast.Expr, root *ast.Ident, name, suffix string) {
+			v, ok := s.objOf(root).(*types.Var)
+			if !ok {
+				put("local-ref", name+suffix)
+				return
+			}
+			holder, hfield := "", ""
+			x := e
+			for {
+				switch y := x.(type) {
+				case *ast.ParenExpr:
+					x = y.X
+					continue
+				case *ast.IndexExpr:
+					x = y.X
+					continue
+				case *ast.SliceExpr:
+					x = y.X
+					continue
+				}
+				break
+			}
+			if sel, ok := x.(*ast.SelectorExpr); ok {
+				if ct, ok := p.info.Types[sel.X]; ok {
+					if n, isNamed := types.Unalias(ct.Type).(*types.Named); isNamed {
+						if _, isStruct := n.Underlying().(*types.Struct); isStruct {
+							holder, hfield = lkQualName(p, prefix, n.Obj().Pkg(), n.Obj().Name()), sel.Sel.Name
+						}
+					}
+				}
+			}
+			for _, o := range s.origins(f, v, map[types.Object]bool{}) {
+				switch o.kind {
+				case "fresh":
+				case "owner":
+					if strings.HasPrefix(o.owner, "pkgvar:") {
+						addVarWriter(strings.TrimPrefix(o.owner, "pkgvar:"), f.name)
+					}
+					rest := name
+					if i := strings.IndexByte(name, '.'); i >= 0 {
+						rest = name[i+1:]
+					}
+					fld := o.field
+					if fld == "" {
+						fld = "*"
+					}
+					put(o.owner, fld+"."+rest+suffix)
+				default:
+					if holder != "" {
+						put(holder, hfield+suffix)
+					} else {
+						put("local-ref", name+suffix)
+					}
+				}
+			}
+		}
 		// a variable that a function literal captures from a function that runs in the loading phase only (a filter
 		// constructor, initEnv ...) is shared by all later invocations of the literal: Load-time state, not a local
 		captured := func(e ast.Expr) (string, bool) {
@@ -735,6 +796,10 @@ func (t *lkTr) scanPackage(p *lkPkg, prefix string, runRoots, loadRoots []string
 			if owner == "local-ref" {
 				if id := rootIdent(e); id != nil && !strings.Contains(field, ".") {
 					viaLocal(id, field, suffix)
+					return
+				}
+				if id := rootIdent(e); id != nil {
+					viaStructValue(e, id, field, suffix)
 					return
 				}
 			}
@@ -783,6 +848,10 @@ func (t *lkTr) scanPackage(p *lkPkg, prefix string, runRoots, loadRoots []string
 								owner, field := t.writeOwner(p, prefix, &ast.IndexExpr{X: n.Args[0]})
 								if lkIsStructOwner(owner) || strings.HasPrefix(owner, "pkgvar:") {
 									record(&ast.IndexExpr{X: n.Args[0]}, ".[append]")
+								} else if owner == "local-ref" && strings.Contains(field, ".") {
+									if rid := rootIdent(n.Args[0]); rid != nil {
+										viaStructValue(n.Args[0], rid, field, ".[append]")
+									}
 								} else if owner == "local-ref" {
 									if rid := rootIdent(n.Args[0]); rid != nil && !strings.Contains(field, ".") {
 										if v, ok := s.objOf(rid).(*types.Var); ok {
@@ -1071,6 +1140,13 @@ func (g *lkGraph) visit(tp types.Type) {
 		if pkg == nil {
 			return // error
 		}
+		if pkg == g.p.pkg {
+			for _, sn := range lkSharedStructs {
+				if x.Obj().Name() == sn {
+					return // the engine-wide state behind its own locks: the subject of the lock discipline, not a Load-time object
+				}
+			}
+		}
 		if !strings.HasPrefix(pkg.Path(), lkModulePath) {
 			g.external[k] = true
 			return
@@ -1132,7 +1208,17 @@ func lkStrList(l []string) string {
 }
 
 func lkLoadtimeSection(repo string, t *lkTr, sb *strings.Builder) error {
-	cfgs := lkScanCfgs()
+	cfgs := append(lkScanCfgs(), lkStdlibCfgs(t.p)...)
+	var copies [][2]string
+	natives, nativeImpls, err := lkInitEnvNatives(t)
+	if err != nil {
+		return err
+	}
+	more, err := lkConstNatives(t.p, "", "ruleguard", "initEnv")
+	if err != nil {
+		return err
+	}
+	natives = append(natives, more...)
 	var inv, vars []string
 	var writes []lkWrite
 	var loadOnly, scanned []string
@@ -1152,6 +1238,14 @@ func lkLoadtimeSection(repo string, t *lkTr, sb *strings.Builder) error {
 		out, err := tr.scanPackage(tr.p, cfg.prefix, cfg.runRoots, cfg.loadRoots)
 		if err != nil {
 			return err
+		}
+		copies = append(copies, lkLockCopies(tr.p, cfg.prefix)...)
+		if strings.HasPrefix(lkModulePath+"/"+cfg.rel, lkStdlibPrefix) {
+			more, err := lkConstNatives(tr.p, cfg.prefix, cfg.rel, "")
+			if err != nil {
+				return err
+			}
+			natives = append(natives, more...)
 		}
 		scanned = append(scanned, cfg.rel)
 		inv = append(inv, lkInventoryAll(tr.p, cfg.prefix)...)
@@ -1228,6 +1322,10 @@ func lkLoadtimeSection(repo string, t *lkTr, sb *strings.Builder) error {
 	if err := rootField("engineState", "env"); err != nil {
 		return err
 	}
+	// the structs behind the natives (bound as method values: the receiver is copied into the closure once per engine)
+	for _, n := range nativeImpls {
+		g.visit(n)
+	}
 	ff := p.pkg.Scope().Lookup("filterFunc")
 	if ff == nil {
 		return fmt.Errorf("locks: type filterFunc not found")
@@ -1262,5 +1360,6 @@ func lkLoadtimeSection(repo string, t *lkTr, sb *strings.Builder) error {
 	fmt.Fprintf(sb, "(* filter constructors (functions returning filterFunc) and the types of what their closures capture *)\nDefinition gen_filter_captures : list (string * list string) := [\n%s\n].\n\n", strings.Join(captures, ";\n"))
 	fmt.Fprintf(sb, "(* struct types of the module reachable from engine.ruleSet, engineState.env and the filter captures: the objects\n   Load builds and concurrent Run calls share without a lock *)\nDefinition gen_loadtime_types : list string := %s.\n\n", lkStrList(lkSortedKeys(g.structs)))
 	fmt.Fprintf(sb, "(* types of other modules reachable in the same way (listed, not entered) *)\nDefinition gen_loadtime_external : list string := %s.\n", lkStrList(lkSortedKeys(g.external)))
+	lkNativesSection(t, nil, copies, nativeImpls, natives, sb)
 	return nil
 }
